@@ -48,6 +48,34 @@ class Namespace(typing.Generic[T]):
         """
         raise NotImplementedError()  # pragma: no cover
 
+    def _is_shadowed_global(self, name: str) -> bool:
+        """
+        A name declared `global` here, while an enclosing function has a local of
+        the same name: as a plain name it would be captured by the enclosing lambda
+        """
+        try:
+            if not self.symt.lookup(name).is_declared_global():
+                return False
+        except KeyError:
+            return False
+        outer = self.outer_nsp
+        while not isinstance(outer, NamespaceGlobal):
+            if isinstance(outer, NamespaceFunction):
+                try:
+                    if outer.symt.lookup(name).is_local():
+                        return True
+                except KeyError:
+                    pass
+            outer = outer.outer_nsp
+        return False
+
+    def _load_global(self, name: str) -> expr:
+        return Subscript(
+            value=Call(func=Name(id="globals", ctx=Load()), args=[], keywords=[]),
+            slice=Constant(value=name),
+            ctx=Load(),
+        )
+
 
 class NamespaceGlobal(Namespace[symtable.SymbolTable]):
     use_itertools: bool = False
@@ -184,6 +212,9 @@ class NamespaceFunction(Namespace[symtable.Function]):
             if name in comp.target_names:
                 return Name(id=name, ctx=Load())
 
+        if self._is_shadowed_global(name):
+            return self._load_global(name)
+
         if name in self.inner_nonlocal_names:
             return Subscript(
                 value=self.nonlocal_dict_expr,
@@ -295,6 +326,8 @@ class NamespaceClass(Namespace[symtable.Class]):
                 ctx=Load(),
             )
         elif symbol.is_global():
+            if self._is_shadowed_global(name):
+                return self._load_global(name)
             return Name(id=name, ctx=Load())
         else:
             # a class member
